@@ -63,3 +63,116 @@ CHECKS["C05"] = dict(
 
 # properties without a check yet (reason shown in MANIFEST.not_applicable)
 NOT_CLAIMED = {}
+
+# ---------------------------------------------------------------- h_loop profiles
+ABN = "sanitizer,crash,hang,lib-fatal,unexpected-exit"
+LOOP_ASSUME = [
+    "time is virtual: it advances only at a blocking point (to the wait deadline) or by an explicit 'long operation' followed by iv_invalidate_now()",
+    "descriptors are AF_UNIX stream socket pairs whose peer the harness drives; kernel semantics of epoll/poll/eventfd are the host's",
+    "timerfd is emulated by an eventfd fired by the virtual clock (settime resets the count as the kernel does)",
+    "<=3 fds, <=3 timers, <=3 tasks, <=2 events; <=2 actions per callback; loop horizon 10 iterations",
+]
+UNREG_OPS = "leave,fdunreg,tmunreg,tkunreg,evunreg,rawunreg,sigunreg"
+ALL_SEEDS_C01 = "11,2,6,7,8,9,10,12,24,3,22,21"
+
+CHECKS["C01"] = dict(
+    quick=[
+        # who-unregisters-whom matrix: every handler may unregister(+free) any registered object, 2 deviations
+        R("h_loop", "bound=2 seeds=%s nfd=3 ntm=3 ntk=2 nev=2 nraw=1 nsig=1 ops=%s rules=stale-callback,cookie,oneshot-registered,%s" % (ALL_SEEDS_C01, UNREG_OPS, ABN)),
+        # any API action from any callback, 1 deviation
+        R("h_loop", "bound=1 seeds=%s,1,5,13,14,15,16,19,20 nfd=3 ntm=3 ntk=2 nev=2 nraw=1 nsig=1 nwk=1 rules=stale-callback,cookie,oneshot-registered,%s" % (ALL_SEEDS_C01, ABN)),
+    ],
+    thorough=[
+        R("h_loop", "bound=3 seeds=%s nfd=3 ntm=3 ntk=2 nev=2 nraw=1 nsig=1 ops=%s rules=stale-callback,cookie,oneshot-registered,%s" % (ALL_SEEDS_C01, UNREG_OPS, ABN), share=0.5),
+        R("h_loop", "bound=2 seeds=%s nfd=2 ntm=2 ntk=2 nev=1 nraw=1 nsig=1 rules=stale-callback,cookie,oneshot-registered,%s" % (ALL_SEEDS_C01, ABN)),
+    ],
+    rule="choice sequences (program steps at setup / callback entry, stimuli at blocking points) within the deviation bound, from each seed "
+         "state, under each of the 4 poll methods; an execution is non-trivial if a callback ran and a non-default choice was taken; "
+         "distinct = distinct observation traces",
+    explanation="every object is malloc()ed, carries a (slot, generation) cookie and is poisoned+freed immediately after its unregister call "
+                "returns (one-shot timers/tasks: on handler entry); a stale invocation fails the cookie check, a stale access is an ASan "
+                "heap-use-after-free",
+    assumptions=LOOP_ASSUME,
+    deadline=dict(quick=150, thorough=900),
+)
+
+FD_OPS = "leave,fdreg,fdtry,fdunreg,fdseth,feed,drain,fill,unfill,pclose,pshut,tkreg"
+FD_SEEDS = "1,2,3,4,5,14,15,19,22,24"
+CHECKS["C02"] = dict(
+    quick=[
+        R("h_loop", "bound=2 seeds=%s nfd=3 ntm=0 ntk=1 nev=0 ops=%s rules=fd-sleep,fd-starved,%s" % (FD_SEEDS, FD_OPS, ABN)),
+    ],
+    thorough=[
+        R("h_loop", "bound=3 seeds=%s nfd=2 ntm=0 ntk=1 nev=0 ops=%s rules=fd-sleep,fd-starved,%s" % (FD_SEEDS, FD_OPS, ABN)),
+    ],
+    rule=CHECKS["C01"]["rule"],
+    explanation="at every entry to the kernel wait the harness takes poll(2) ground truth for every registered descriptor: if a band has a "
+                "handler and its condition holds, the loop must not block (fd-sleep) and the handler must be invoked within 3 iterations "
+                "unless a callback changed that descriptor (fd-starved)",
+    assumptions=LOOP_ASSUME,
+    deadline=dict(quick=150, thorough=900),
+)
+CHECKS["C03"] = dict(
+    quick=[
+        R("h_loop", "bound=2 seeds=%s nfd=3 ntm=0 ntk=1 nev=0 ops=%s abn_ignore=1 nofree=1 rules=fd-spurious,fd-wrong-handler,fd-twice,fd-cleared-handler,stale-callback,cookie" % (FD_SEEDS, FD_OPS)),
+    ],
+    thorough=[
+        R("h_loop", "bound=3 seeds=%s nfd=2 ntm=0 ntk=1 nev=0 ops=%s abn_ignore=1 nofree=1 rules=fd-spurious,fd-wrong-handler,fd-twice,fd-cleared-handler,stale-callback,cookie" % (FD_SEEDS, FD_OPS)),
+    ],
+    rule=CHECKS["C01"]["rule"],
+    explanation="the wait wrapper records exactly which events the kernel returned; on handler entry the band must be allowed by them, the "
+                "descriptor registered, the handler variant the one currently installed, the cookie the live one, and the band not yet "
+                "served in this iteration",
+    assumptions=LOOP_ASSUME + ["abnormal terminations are not counted against this pure safety property (they make the run non-exhaustive)"],
+    deadline=dict(quick=150, thorough=900),
+)
+TM_OPS = "leave,tmreg,tmunreg,feed,drain,tkreg,timepass,fdunreg"
+TM_SEEDS = "0,7,8,13,16,17,18,6"
+CHECKS["C04"] = dict(
+    quick=[
+        R("h_loop", "bound=2 seeds=%s nfd=1 ntm=3 ntk=1 nev=0 horizon=14 ops=%s rules=timer-early,timer-twice,oversleep,stale-callback,oneshot-registered,%s" % (TM_SEEDS, TM_OPS, ABN)),
+    ],
+    thorough=[
+        R("h_loop", "bound=3 seeds=%s nfd=1 ntm=3 ntk=1 nev=0 horizon=14 ops=%s rules=timer-early,timer-twice,oversleep,stale-callback,oneshot-registered,%s" % (TM_SEEDS, TM_OPS, ABN)),
+    ],
+    rule=CHECKS["C01"]["rule"],
+    explanation="virtual clock; on handler entry the clock must be at or past the expiry and the registration must not have fired before; at "
+                "every point where the loop would block, the sleep (min of the requested timeout and the armed timer descriptor) must end "
+                "no later than the earliest registered expiry rounded up to the next millisecond; 'chatty' seeds present the same deadline "
+                "on >=5 consecutive polls so that the kernel-timer optimisation engages, fires and is cancelled",
+    assumptions=LOOP_ASSUME + ["expiry alphabet: zero, now-1s, now, now+1ns, now+10ms, now+100s"],
+    deadline=dict(quick=150, thorough=900),
+)
+TK_OPS = "leave,tkreg,tkunreg,feed,tmreg,evpost,fdunreg"
+CHECKS["C06"] = dict(
+    quick=[
+        R("h_loop", "bound=3 seeds=9,6,10,0,1,21 nfd=1 ntm=1 ntk=3 nev=1 nwk=1 ops=%s rules=sleep-with-task,task-same-round,oneshot-registered,stale-callback,fd-starved,work-,%s" % (TK_OPS, ABN)),
+        # same programs, but a task slot keeps its struct: re-registration re-uses the memory that already ran (no IV_TASK_INIT)
+        R("h_loop", "bound=3 tkkeep=1 seeds=9,6,10 nfd=1 ntm=0 ntk=3 nev=0 ops=leave,tkreg,tkunreg,feed rules=sleep-with-task,task-same-round,oneshot-registered,stale-callback,fd-starved,%s" % ABN),
+    ],
+    thorough=[
+        R("h_loop", "bound=4 seeds=9,6,10,0,1,21 nfd=1 ntm=1 ntk=3 nev=1 nwk=1 ops=%s rules=sleep-with-task,task-same-round,oneshot-registered,stale-callback,fd-starved,work-,%s" % (TK_OPS, ABN)),
+    ],
+    rule=CHECKS["C01"]["rule"],
+    explanation="each task registration may run once (generation cookie), is unregistered on entry, must have run before the loop blocks, and "
+                "no task slot may run twice without a kernel poll in between; a ready descriptor must still be served while tasks "
+                "re-register (C02's service window)",
+    assumptions=LOOP_ASSUME,
+    deadline=dict(quick=150, thorough=900),
+)
+C07_RULES = "main-should-return,main-return-early,spin,nested-callback,callback-outside-main,wait-outside-main,failed-register-side-effect,try-should-fail,try-failed,object-count,event-lost,raw-lost,sig-lost,work-lost,sleep-with-task,fd-sleep,oversleep," + ABN
+CHECKS["C07"] = dict(
+    quick=[
+        R("h_loop", "bound=2 seeds=0,1,6,10,11,12,20,21,23 nfd=2 ntm=1 ntk=1 nev=2 nraw=1 nsig=1 nwk=1 emfile=1 rules=%s" % C07_RULES),
+    ],
+    thorough=[
+        R("h_loop", "bound=3 seeds=0,1,6,10,11,12,20,21,23 nfd=2 ntm=1 ntk=1 nev=2 nraw=1 nsig=1 nwk=1 emfile=1 acts=2 rules=%s" % C07_RULES),
+    ],
+    rule=CHECKS["C01"]["rule"],
+    explanation="reference count of user-visible registered objects: at every kernel wait the set must be non-empty and iv_quit not pending; "
+                "when iv_main returns one of the two must hold; failed registrations (closed fd, regular file under epoll, EMFILE while "
+                "creating the wake-up descriptor) must leave the loop unchanged; callbacks only inside iv_main and never nested; a loop that "
+                "would block must have nothing due; >8 wake-ups without callback/time/EINTR is a spin; watchdog for hangs",
+    assumptions=LOOP_ASSUME,
+    deadline=dict(quick=150, thorough=900),
+)
